@@ -307,6 +307,31 @@ def postinit_entries():
     return out
 
 
+def legacy_arity_entries():
+    """Old-style init-args classes with 0, 1, 2, 3 init args (vf/c17_usercls.py) -- 0 is the
+    boundary of the protocol: the state tuple is empty -- alone and nested."""
+    sm = ("Sum", T(X, Y))
+    specs = {
+        "LegacyArgs0": (OLD + "LegacyArgs0",),
+        "LegacyArgs0U": (OLD + "LegacyArgs0U",),
+        "LegacyLeaf0": (OLD + "LegacyLeaf0",),
+        "LegacyArgs1": (OLD + "LegacyArgs1", sm),
+        "LegacyArgs1-flat": (OLD + "LegacyArgs1", S("n")),
+        "LegacyArgs2": (OLD + "LegacyArgs2", X, C(7)),
+        "LegacyArgs3": (OLD + "LegacyArgs3", X, T(Y, C(1)), NONE),
+    }
+    out = [_entry(f"legacyargs:{k}", k, "user", v) for k, v in specs.items()]
+    for k in ("LegacyArgs0", "LegacyArgs0U", "LegacyLeaf0", "LegacyArgs2"):
+        out.append(_entry(f"nest:Sum2[1]:{k}", f"Sum2[1]:{k}", "nest",
+                          ("Sum", T(V("velocity"), specs[k]))))
+    out.append(_entry("nest:LegacyArgs1[0]:LegacyArgs0", "LegacyArgs1[0]:LegacyArgs0", "nest",
+                      (OLD + "LegacyArgs1", specs["LegacyArgs0"])))
+    out.append(_entry("nest:CallKw02[2]:LegacyArgs0", "CallKw02[2]:LegacyArgs0", "nest",
+                      ("CallWithKwargs", V("f"), T(), ("map", ("k", Z),
+                                                       ("j", specs["LegacyArgs0"])))))
+    return out
+
+
 FLAT_VALUES = {"name": S("x"), "u": C(11), "w": S("tag")}
 
 
@@ -550,6 +575,7 @@ def pool(tier):
     if tier not in _POOLS:
         base = (single_entries() + extra_entries() + arith_entries() + user_entries()
                 + user_flat_entries(tier) + oldstyle_entries() + postinit_entries()
+                + legacy_arity_entries()
                 + nest_entries(tier)
                 + user_nest_entries(tier))
         allp = base + variant_entries(base) + compiled_entries(tier)
